@@ -5,7 +5,7 @@ import ast
 
 from ..astq import arg, const, ext_names, handler_classes, inside, is_name, loc, names_in, stmt_of
 from ..cfg import CFG, any_call_may_raise
-from ..model import AnalysisError, head, norm
+from ..model import AnalysisError, Func, head, norm
 from . import engine as E
 from . import runrules as R
 from .common import make_user_reaching
@@ -197,41 +197,10 @@ def check(ctx):
     abstract = [n for n in po.methods if po.is_abstract_method(n)]
     ctx.floor("C15.P6", "abstract methods of ProgressObserver", len(abstract), 6)
     for name in abstract:
-        f = comp.methods.get(name)
-        ctx.ob("C15.P6", f"Composite.{name}/defined", f is not None, loc(comp.methods["__init__"]), "defined" if f else f"composite does not implement {name}")
-        if f is None or name in ("__enter__", "__exit__"):
-            continue
-        body = [s for s in f.node.body if not (isinstance(s, ast.Expr) and isinstance(s.value, ast.Constant))]
-        ok = len(body) == 1 and isinstance(body[0], ast.For) and norm(body[0].iter) == "self._progress_observers" and len(body[0].body) == 1 \
-            and not body[0].orelse
-        if ok:
-            st = body[0].body[0]
-            c = st.value if isinstance(st, ast.Expr) and isinstance(st.value, ast.Call) else None
-            params = [p for p in f.params if p != f.pos_params[0]]
-            ok = c is not None and isinstance(c.func, ast.Attribute) and c.func.attr == name and is_name(c.func.value, norm(body[0].target)) \
-                and sorted((k.arg, norm(k.value)) for k in c.keywords) == sorted((p, p) for p in params) and not c.args
-        ctx.ob("C15.P6", f"Composite.{name}/forwards-all", ok, loc(f),
-               "one unconditional loop over all members forwarding every parameter under its own name" if ok else
-               "notification is not forwarded to every member with every parameter (early exit, filter, or missing argument)")
-    init = comp.methods["__init__"]
-    ok = any(isinstance(n, ast.Assign) and norm(n.targets[0]) == "self._progress_observers" and norm(n.value) == f"tuple({init.pos_params[1]})" for n in init.own_nodes())
-    ctx.ob("C15.P6", "Composite/members", ok, loc(init), "all given members are kept" if ok else "member tuple is not tuple(<all given observers>)")
-    en, ex = comp.methods.get("__enter__"), comp.methods.get("__exit__")
-    if en and ex:
-        ws_ = [n for n in en.own_nodes() if isinstance(n, ast.With) and any("ExitStack" in norm(it.context_expr) for it in n.items)]
-        ok = len(ws_) == 1
-        if ok:
-            sv = ws_[0].items[0].optional_vars.id
-            fl = [n for n in ws_[0].body if isinstance(n, ast.For) and norm(n.iter) == "self._progress_observers"]
-            ok = len(fl) == 1 and [norm(s) for s in fl[0].body] == [f"{sv}.enter_context({norm(fl[0].target)})"] and \
-                any(norm(s) == f"self._stack = {sv}.pop_all()" for s in ws_[0].body) and ws_[0].body.index(fl[0]) < [norm(s) for s in ws_[0].body].index(f"self._stack = {sv}.pop_all()")
-        ctx.ob("C15.P6", "Composite.__enter__/exit-stack", ok, loc(en),
-               "members are entered through one ExitStack (already entered members are exited if a later one fails), then kept via pop_all()" if ok else
-               "members are not entered through an ExitStack: if a later member fails to enter (or exit), earlier members are never exited")
-        body = [s for s in ex.node.body if not (isinstance(s, ast.Expr) and isinstance(s.value, ast.Constant))]
-        ok = len(body) == 1 and "self._stack.__exit__(" in norm(body[0]) and all(p in norm(body[0]) for p in ex.pos_params[1:])
-        ctx.ob("C15.P6", "Composite.__exit__/delegates", ok, loc(ex), "__exit__ delegates to the exit stack with the exception triple" if ok else
-               "__exit__ does not delegate to the exit stack: a member raising from __exit__ prevents the others from being exited")
+        f = comp.lookup(name)
+        ok = isinstance(f, Func) and not f.cls.is_abstract_method(name)
+        ctx.ob("C15.P6", f"Composite.{name}/defined", ok, loc(comp.methods["__init__"]), "defined" if ok else f"composite does not implement {name}")
+    ctx.run(rule_composite, "C15.P6", po, comp, abstract)
     # ---------------------------------------------------------------- P7
     chain = [(run, rr.run_physical), (rr.run_physical, rr.prep_run), (run, rr.apply), (rr.apply, rr.stale), (rr.apply, stale_tot), (run, run_tot)]
     for caller, callee in chain:
@@ -262,3 +231,160 @@ def check(ctx):
                 why = ("`progress_observer or <default>` replaces an observer that is falsy (e.g. defines __len__/__bool__) by the "
                        "null observer: it is entered and gets totals but none of this phase's notifications")
             ctx.ob("C15.P7", f"{f.short}/observer-default", ok, loc(f, expr), why, norm(stmt_of(f.module, expr))[:100])
+
+
+def rule_composite(ctx, rid, po, comp, abstract):
+    """The composite observer, evaluated with three abstract members (whose methods return True / None / False, so that a
+    forwarding loop that stops at - or filters on - a member's answer is seen; the third member is itself falsy):
+      * every notification method called on the composite reaches every member exactly once with exactly the arguments given;
+      * entering the composite enters every member once; leaving it leaves every member once with the exception triple given;
+      * if a member fails to enter, the members entered before it are left again and the later ones are untouched;
+      * if a member fails while being left, the other members are still left and the failure propagates.
+    contextlib.ExitStack is a checker-side model with the library's documented semantics."""
+    from ..absval import AbsRaise, Interp, Native, Obj, Stub
+    m = ctx.model
+    init = comp.lookup("__init__")
+    notes = [n for n in abstract if n not in ("__enter__", "__exit__")]
+
+    def world(fail_enter=None, fail_exit=None):
+        log = []
+        interp_box = []
+
+        class ExitStack(Native):
+            def __init__(self):
+                self.stack = []
+
+            def __enter__(self):
+                return self
+
+            def enter_context(self, cm):
+                it = interp_box[0]
+                r = it.call(it.getattr(cm, "__enter__"), [], {})
+                self.stack.append(lambda *exc, _cm=cm: it.call(it.getattr(_cm, "__exit__"), list(exc), {}))
+                return r
+
+            def push(self, ex):
+                it = interp_box[0]
+                self.stack.append(ex if callable(ex) and not isinstance(ex, Obj) else (lambda *exc, _o=ex: it.call(it.getattr(_o, "__exit__"), list(exc), {})))
+                return ex
+
+            def callback(self, fn, *a, **kw):
+                it = interp_box[0]
+                self.stack.append(lambda *exc: it.call(fn, list(a), dict(kw)) and False)
+                return fn
+
+            def pop_all(self):
+                new = ExitStack()
+                new.stack, self.stack = self.stack, []
+                return new
+
+            def __exit__(self, *exc):
+                exc = tuple(exc) if exc else (None, None, None)
+                cur = None if exc[0] is None else exc
+                raised = None
+                while self.stack:
+                    x_ = self.stack.pop()
+                    try:
+                        if x_(*(cur or (None, None, None))):
+                            cur, raised = None, None
+                    except AbsRaise as e2:
+                        cur, raised = ("exc", e2.value, None), e2
+                if raised is not None:
+                    raise raised
+                return exc[0] is not None and cur is None
+
+            def close(self):
+                self.__exit__(None, None, None)
+        members = []
+        for i, ret in enumerate((True, None, False)):
+            nm = f"m{i + 1}"
+
+            def mk(method, nm=nm, ret=ret):
+                def fn(*a, **kw):
+                    log.append((nm, method, tuple(a), tuple(sorted(kw.items(), key=lambda t: t[0]))))
+                    if method == "__enter__" and fail_enter == nm:
+                        raise AbsRaise(f"enter-failure-{nm}")
+                    if method == "__exit__" and fail_exit == nm:
+                        raise AbsRaise(f"exit-failure-{nm}")
+                    return None if method == "__exit__" else ret
+                return Stub(f"{nm}.{method}", fn)
+            # the third member is an observer object whose truth value is False (e.g. one that is also a container)
+            members.append(Obj(po, {meth: mk(meth) for meth in abstract}, name=nm, truthy=(i != 2)))
+        interp = Interp(m, ext={"contextlib.ExitStack": ExitStack})
+        interp_box.append(interp)
+        me = Obj(comp, {}, name="composite")
+        if isinstance(init, Func):
+            try:
+                interp.call_func(init, None, [list(members)], {}, bound_self=me)
+            except AbsRaise as e:
+                raise AnalysisError(f"abstract evaluation of {init.qualname} raised {e.value!r}")
+        return interp, me, members, log
+
+    def call(interp, me, name, args=(), kw=None):
+        return interp.call(interp.getattr(me, name), list(args), dict(kw or {}))
+    # ---- notifications
+    for name in notes:
+        f = comp.lookup(name)
+        if not isinstance(f, Func):
+            continue
+        interp, me, members, log = world()
+        kw = {}
+        for p_ in f.params[1:]:
+            kw[p_] = {"section": "sec", "scope": ("a", "b"), "amount": 3}.get(p_, Obj(None, {}, name=f"<{p_}>"))
+        try:
+            call(interp, me, name, kw=kw)
+            err = None
+        except AbsRaise as e:
+            err = e.value
+        want = tuple(sorted(kw.items(), key=lambda t: t[0]))
+        got = [(e_[0], e_[1], e_[3]) for e_ in log if not e_[2]]
+        ok = err is None and sorted(got) == sorted((f"m{i}", name, want) for i in (1, 2, 3)) and len(log) == 3
+        ctx.ob(rid, f"Composite.{name}/forwards-all", ok, loc(f),
+               "reaches every member exactly once with every argument (evaluated with three members)" if ok else
+               f"notification is not forwarded to every member with every parameter (early exit, filter, or missing argument): "
+               f"members saw {[(e_[0], e_[1], dict(e_[3])) for e_ in log]}" + (f", raised {err!r}" if err else ""))
+    # ---- enter / exit
+    en, ex = comp.lookup("__enter__"), comp.lookup("__exit__")
+    if not (isinstance(en, Func) and isinstance(ex, Func)):
+        return
+    interp, me, members, log = world()
+    triple = ("ExcType", Obj(None, {}, name="<exc>"), Obj(None, {}, name="<tb>"))
+    try:
+        call(interp, me, "__enter__")
+        entered = [e_[0] for e_ in log if e_[1] == "__enter__"]
+        call(interp, me, "__exit__", triple)
+        err = None
+    except AbsRaise as e:
+        err = e.value
+        entered = [e_[0] for e_ in log if e_[1] == "__enter__"]
+    exits = [e_ for e_ in log if e_[1] == "__exit__"]
+    ok = err is None and sorted(entered) == ["m1", "m2", "m3"] and sorted(e_[0] for e_ in exits) == ["m1", "m2", "m3"] \
+        and all(e_[2] == triple for e_ in exits) and all(log.index(e_) >= 3 for e_ in exits)
+    ctx.ob(rid, "Composite.__enter__/__exit__/brackets-every-member", ok, loc(en),
+           "every member is entered once, then left once with the exception triple the composite was given" if ok else
+           f"entering and leaving the composite does not enter and leave every member exactly once with the given exception triple: {[(e_[0], e_[1]) for e_ in log]}"
+           + (f", raised {err!r}" if err else ""))
+    interp, me, members, log = world(fail_enter="m2")
+    try:
+        call(interp, me, "__enter__")
+        err = None
+    except AbsRaise as e:
+        err = e.value
+    seq = [(e_[0], e_[1]) for e_ in log]
+    ok = err == "enter-failure-m2" and ("m1", "__exit__") in seq and seq.count(("m1", "__exit__")) == 1 and ("m2", "__exit__") not in seq \
+        and not [x for x in seq if x[0] == "m3"]
+    ctx.ob(rid, "Composite.__enter__/exit-stack", ok, loc(en),
+           "if a later member fails to enter, the members already entered are left again and the failure propagates" if ok else
+           f"if a later member fails to enter, earlier members are never exited (or the failure is lost): {seq}, raised {err!r}")
+    interp, me, members, log = world(fail_exit="m3")
+    try:
+        call(interp, me, "__enter__")
+        call(interp, me, "__exit__", (None, None, None))
+        err = None
+    except AbsRaise as e:
+        err = e.value
+    seq = [(e_[0], e_[1]) for e_ in log]
+    ok = err == "exit-failure-m3" and all(seq.count((mm, "__exit__")) == 1 for mm in ("m1", "m2", "m3"))
+    ctx.ob(rid, "Composite.__exit__/delegates", ok, loc(ex),
+           "a member failing in __exit__ does not prevent the others from being left; its failure propagates" if ok else
+           f"a member raising from __exit__ prevents the others from being exited (or its failure is lost): {seq}, raised {err!r}")
